@@ -39,7 +39,7 @@ class Register:
         self._name = name
         if size is not None and not isinstance(size, AnnotatedValue):
             # A literal size (or the value substituted for a let constant)
-            if isinstance(size, float) and size == int(size):
+            if isinstance(size, float) and size.is_integer():
                 size = int(size)
             if not isinstance(size, int) or size < 1:
                 raise JaqalError(f"Invalid size {size} for register {name}.")
@@ -307,7 +307,7 @@ class NamedQubit:
                     f"Cannot slice parameter {alias_from.name} of non-register kind {alias_from.kind}."
                 )
         else:
-            if isinstance(alias_index, float) and alias_index == int(alias_index):
+            if isinstance(alias_index, float) and alias_index.is_integer():
                 alias_index = self._alias_index = int(alias_index)
             if not isinstance(alias_index, int):
                 raise JaqalError(f"Qubit index {alias_index} is not an integer.")
